@@ -33,7 +33,7 @@
       assumption about AES-GCM, not a theorem). *)
 From Coq Require Import List ZArith NArith Bool Arith Lia String.
 From Coq Require Import ZifyN ZifyNat ZifyBool.
-From PQ Require Import Base.Bytes Generated.Consts Aad.Model Aad.Proofs Aad.Aead.
+From PQ Require Import Base.Bytes Generated.Consts Aad.Model Aad.Proofs Aad.Aead Aad.Keys.
 Import ListNotations.
 
 (** * AAD construction *)
@@ -56,6 +56,73 @@ Theorem C18_distinct_modules_distinct_aads : forall pfx fu pfx' fu' p p',
   pfx = pfx' /\ fu = fu' /\ p = p'.
 Proof. exact aad_of_pos_injective. Qed.
 Print Assumptions C18_distinct_modules_distinct_aads.
+
+(** File identifiers of ANY length (EncryptionConfig.FileIdentifier is used as
+    it is, whatever its length: 1 byte, 8 bytes, a 16-byte UUID, a textual name):
+    under one AAD prefix, the module at a given position of one file and the
+    module of the same type at the same position of another file have equal
+    AADs only if the two identifiers are EQUAL as byte strings -- sharing a
+    prefix of 8 (or any number of) bytes is not enough, and no hypothesis on
+    the lengths is needed when the positions are the same (the cross-file
+    exchange the harness performs on pairs of identifiers of 1..20 bytes
+    sharing 0..all of their bytes). *)
+Theorem C18_identifier_binds_any_length : forall pfx fu fu' m rg col pg,
+  make_aad pfx fu m rg col pg = make_aad pfx fu' m rg col pg -> fu = fu'.
+Proof.
+  intros pfx fu fu' m rg col pg H. unfold make_aad, make_aad_raw in H.
+  apply app_inv_head in H. apply app_inv_tail in H. exact H.
+Qed.
+Print Assumptions C18_identifier_binds_any_length.
+
+(** ... whereas for DIFFERENT positions the hypothesis of equal lengths in
+    [C18_aad_injective] (and in [entries_ok]) cannot be dropped: identifier
+    X of 8 bytes, data page body at row group 256, column 5, page 7, and
+    identifier X ++ [2; 0] of 10 bytes, column metadata at row group 5,
+    column 7, have the same AAD. *)
+Example C18_ex_identifier_lengths_matter :
+  let x := [1; 2; 3; 4; 5; 6; 7; 8]%N in
+  make_aad [] x MDataBody 256 5 7 = make_aad [] (x ++ [2; 0]%N) MColMeta 5 7 0.
+Proof. vm_compute. reflexivity. Qed.
+
+(** * Keys are assigned, and resolved, by column PATH (Aad/Keys.v)
+
+    The writer seals the modules of a column with the key ColumnKeys holds for
+    its dot-joined path (else the footer key) and records the path in the
+    crypto_metadata; the reader asks its retriever with that path for every
+    chunk.  So a reader whose retriever answers what the configuration holds
+    gets, for every column, the key the writer used ... *)
+Theorem C18_reader_key_is_by_path : forall (key : Type) (m : keymap key) (footer : key) (r : retriever key) p,
+  (forall q, r q = lookup_key key m (join_path q)) ->
+  reader_key key r footer (snd (writer_key key m footer p)) = Some (fst (writer_key key m footer p)).
+Proof.
+  intros key m footer r p H. unfold writer_key.
+  destruct (lookup_key key m (join_path p)) eqn:E; cbn; [rewrite H; exact E|reflexivity].
+Qed.
+Print Assumptions C18_reader_key_is_by_path.
+
+(** ... and a column with its own key whose path the retriever refuses has no
+    key, whatever the retriever answers for OTHER paths (a column with the same
+    leaf name under another group, configured with the same key value, say). *)
+Theorem C18_refused_path_has_no_key : forall (key : Type) (m : keymap key) (footer : key) (r : retriever key) p k,
+  lookup_key key m (join_path p) = Some k -> r p = None ->
+  reader_key key r footer (snd (writer_key key m footer p)) = None.
+Proof.
+  intros key m footer r p k E H. unfold writer_key. rewrite E. cbn. exact H.
+Qed.
+Print Assumptions C18_refused_path_has_no_key.
+
+(* home.zip and work.zip configured with the same key 1, a retriever that holds
+   home.zip only; the top-level column zip is under the footer key (0) *)
+Definition ex_home_zip : path := [[104; 111; 109; 101]; [122; 105; 112]]%N.
+Definition ex_work_zip : path := [[119; 111; 114; 107]; [122; 105; 112]]%N.
+Definition ex_keymap : keymap N := [(join_path ex_home_zip, 1%N); (join_path ex_work_zip, 1%N)].
+Definition ex_retriever : retriever N :=
+  fun p => if bytes_eqb (join_path p) (join_path ex_home_zip) then Some 1%N else None.
+Example C18_ex_same_leaf_name :
+  reader_key N ex_retriever 0%N (snd (writer_key N ex_keymap 0%N ex_home_zip)) = Some 1%N /\
+  reader_key N ex_retriever 0%N (snd (writer_key N ex_keymap 0%N ex_work_zip)) = None /\
+  oracle_column_key ex_keymap [[122; 105; 112]]%N = (0%N, false).
+Proof. vm_compute. repeat split. Qed.
 
 (** Positions of a layout with at most 65536 row groups, columns per row group
     and pages per chunk are in range. *)
